@@ -2,6 +2,7 @@
 import base64
 import hashlib
 import http.server
+import urllib.parse
 import threading
 
 import torf
@@ -84,8 +85,15 @@ def run_setter(kind, prior, value, used=False):
 class Handler(http.server.BaseHTTPRequestHandler):
     served = {}
 
+    tracker_digest = None      # /file?info_hash=... is answered only for this 20-byte digest (None: for any)
+
     def do_GET(self):
         body = self.served.get(self.path.split('?')[0])
+        if self.path.startswith('/file?') and self.tracker_digest is not None:
+            q = urllib.parse.urlsplit(self.path).query
+            asked = [urllib.parse.unquote_to_bytes(kv.split('=', 1)[1]) for kv in q.split('&') if kv.startswith('info_hash=')]
+            if asked != [self.tracker_digest]:
+                body = None        # a tracker knows torrents by their 20-byte digest
         if body is None:
             self.send_response(404)
             self.end_headers()
@@ -125,12 +133,15 @@ def fetch_scenarios(ck):
 
 
 def run_fetch(port, notation, served, source, history='fresh'):
-    good, ih = make_torrent_bytes('wanted')
+    # 'wanted-128': its info hash in hexadecimal has none of the digits 0, 1, 8, 9, so the string is well-formed base32 as well
+    good, ih = make_torrent_bytes('wanted-128')
+    assert not (set(ih) & set('0189')), ih
+    Handler.tracker_digest = bytes.fromhex(ih)
     other, _ = make_torrent_bytes('other')
     h = {'hex-lower': ih, 'hex-upper': ih.upper(), 'b32-upper': base64.b32encode(bytes.fromhex(ih)).decode(),
          'b32-lower': base64.b32encode(bytes.fromhex(ih)).decode().lower()}[notation]
     body = {'matching': good, 'other': other, 'invalid': b'not a torrent'}[served]
-    Handler.served = {'/t.torrent': body, '/file': body, '/ws/wanted.torrent': body, '/ws.torrent': body}
+    Handler.served = {'/t.torrent': body, '/file': body, '/ws/wanted.torrent': body, '/ws/wanted-128.torrent': body, '/ws.torrent': body}
     base = f'http://127.0.0.1:{port}'
     kw = {}
     if source == 'xs':
@@ -150,6 +161,7 @@ def run_fetch(port, notation, served, source, history='fresh'):
         m = torf.Magnet(xt=h, **kw)
         m.get_info(timeout=5, callback=lambda e: None)
         ih = 'cd' * 20
+        Handler.tracker_digest = bytes.fromhex(ih)
         h2 = {'hex-lower': ih, 'hex-upper': ih.upper(), 'b32-upper': base64.b32encode(bytes.fromhex(ih)).decode(),
               'b32-lower': base64.b32encode(bytes.fromhex(ih)).decode().lower()}[notation]
         if history.endswith('-xt'):
